@@ -340,6 +340,12 @@ func runCrash(c Case) *h.Result {
 		if len(c.At) > 0 && c.At[0] != i {
 			continue
 		}
+		if n := len(pts); n > 0 {
+			if end := takeSnap(dirA); !end.equal(pts[n-1].snap) {
+				// a file-system step that no hook point brackets: still a place to die
+				pts = append(pts, point{name: site(pts[n-1].name) + ":unhooked:after", snap: end})
+			}
+		}
 		post := r.m.Clone()
 		seen := map[string]bool{}
 		for k, pt := range pts {
@@ -364,6 +370,11 @@ func runCrash(c Case) *h.Result {
 	}
 	return res
 }
+
+// tailOps bounds how many of the remaining operations are applied to a recovered directory. Under
+// the limits generated (<= 25) a compaction follows every second entered form at the latest, so
+// the next compactions - where a left-over temporary file matters - are always inside the bound.
+const tailOps = 12
 
 // crashAt: the process died at step pt of operation i. The next start must load a consistent
 // state, and the rest of the operations, applied to what was recovered, must end in a state
@@ -403,13 +414,13 @@ func crashAt(c Case, i int, pt point, pre, post *refhist.Model, dir string) stri
 	m := post.Clone()
 	m.Hist, m.Stash = hist, stash
 	r := &runner{se: se, m: m}
-	for j := i + 1; j < len(c.Ops); j++ {
+	for j := i + 1; j < len(c.Ops) && j <= i+tailOps; j++ {
 		if err = r.apply(c.Ops[j]); err != "" {
 			return fmt.Sprintf("continuing on the recovered directory, op %d: %s", j, err)
 		}
-	}
-	if err = r.reloadCheck("continuing on the recovered directory, at the end"); err != "" {
-		return err + "; files at the death " + pt.snap.String()
+		if err = r.reloadCheck(fmt.Sprintf("continuing on the recovered directory, op %d: after %s", j, c.Ops[j])); err != "" {
+			return err + "; files at the death " + pt.snap.String()
+		}
 	}
 	return ""
 }
@@ -425,6 +436,7 @@ var (
 		"λ", "é", "ñandú", "日本", "語", "😀", "Ω≈ç", "ß", " ", " ", "~a~%", "a.b", "1/2", "1.5e3",
 	}
 	ctlPieces = []string{"\t", "a\tb", "\t\t", "\r", "x\r", "\ry", "\x0b", "\x0c"}
+	ctlNoTab  = []string{"\r", "x\r", "\ry", "\x0b", "\x0c", "\r\r", "a\x0bb"}
 	// atoms of stash forms: always readable, never a complete form together with an open parenthesis
 	atoms = []string{"a", "b", "foo", "bar", "x1", "42", "-7", "nil", "t", "λ", "é1", "日本", "ñ", "car", "list", "quux-2"}
 )
@@ -492,7 +504,7 @@ func genStashForm(rt *rapid.T, ctl bool) []string {
 			body = genAtoms(rt, 0)
 		}
 		if ctl && rapid.IntRange(0, 3).Draw(rt, "ctl") == 0 {
-			body += rapid.SampledFrom([]string{"\t", "\tz", "\r", " \r"}).Draw(rt, "ctlpiece")
+			body += rapid.SampledFrom(ctlPieces).Draw(rt, "ctlpiece")
 		}
 		line := genBlank(rt, "lead")
 		if i == 0 {
@@ -510,6 +522,12 @@ func genStashForm(rt *rapid.T, ctl bool) []string {
 var limits = []int{0, 1, 2, 3, 3, 4, 5, 5, 6, 7, 8, 9, 10, 10, 11, 12, 12, 20, 25, 1000}
 
 func genOps(rt *rapid.T, maxOps int, ctl bool) Case {
+	if ctl && rapid.Bool().Draw(rt, "notabs") {
+		// half of the control-character cases have CR, VT, FF only
+		saved := ctlPieces
+		ctlPieces = ctlNoTab
+		defer func() { ctlPieces = saved }()
+	}
 	c := Case{Limit: rapid.SampledFrom([]int{3, 4, 5, 6, 8, 10, 11, 12, 20}).Draw(rt, "limit")}
 	n := rapid.IntRange(1, maxOps).Draw(rt, "nops")
 	var lastAdd, lastStash []string
